@@ -585,6 +585,13 @@ func VerifyNODATAForZoneWithWork(
 		if q.Qtype == dns.TypeDS && typesSet(types, dns.TypeSOA) {
 			return false, ErrNSECBadDelegation
 		}
+		// And the reverse for every other type: the parent-side NSEC3 of
+		// a zone cut (NS, no SOA) lists what the parent holds at that
+		// name; the child's apex RRsets are not its to deny (RFC 6840
+		// §4.1, RFC 5155 §8.5 as read with §8.9).
+		if q.Qtype != dns.TypeDS && nsecDelegationBitmap(types) {
+			return false, ErrNSECBadDelegation
+		}
 		return true, nil
 	} else if err != ErrNSECMissingCoverage {
 		return false, err
